@@ -2706,6 +2706,33 @@ def spec_complete_option_state(fns, consts):
                         "neg": "true" if (not ok or not ctx.keys.get('is_some(' + good[0][1][0] + ')')) else ctx.keys.get('is_some(' + good[0][1][0] + ')')})
     if n_long == 0 or n_short == 0:
         obs.append({"fn": cfn.name, "block": "shape", "kind": "spec", "target": "complete_option_state", "msg": "complete: no path enters the option-awaits-value state through a long / short flag", "pc": [], "neg": "true"})
+    # the option a flag names is looked up through its primary spelling and ALL its aliases (hidden ones are accepted by the parser too)
+    lookups = []
+    for pc, env in ex.stops:
+        for c in env.get("#callargs", ()):
+            m = re.match(r"^<std::slice::Iter<'_, Arg> as Iterator>::find::<(\{closure@clap_complete/src/engine/complete\.rs:[\d: ]+\})>$", c[0])
+            if m and ("long", m.group(1)) not in lookups:
+                lookups.append(("long", m.group(1)))
+    psf = fns.get("parse_shortflags")
+    if psf is not None:
+        for blk in psf.get().blocks.values():
+            for st in blk["stmts"]:
+                m = re.search(r"<std::slice::Iter<'_, Arg> as Iterator>::find::<(\{closure@clap_complete/src/engine/complete\.rs:[\d: ]+\})>", st)
+                if m and ("short", m.group(1)) not in lookups:
+                    lookups.append(("short", m.group(1)))
+    if {k for k, _ in lookups} != {"long", "short"}:
+        obs.append({"fn": cfn.name, "block": "shape", "kind": "spec", "target": "complete_option_state", "msg": "the option lookups of the shadow parse (long in complete, short in parse_shortflags) were not found", "pc": [], "neg": "true"})
+    for kind, loc in lookups:
+        try:
+            cf = _closure_fn(fns, loc)
+            cex = symex.Exec(ctx, cf, [("opq", "lk_env"), ("opq", "lk_arg")]).run(cut_loops=True)
+            calls = {c[0] for ca in list(cex.return_callargs) + [e.get("#callargs", ()) for _, e in cex.cuts] for c in ca}
+            want_all = "Arg::get_all_aliases" if kind == "long" else "Arg::get_all_short_aliases"
+            ok = want_all in calls and not any(x.endswith("_and_visible_aliases") or x.endswith("get_visible_aliases") or x.endswith("get_visible_short_aliases") for x in calls)
+        except Unsupported:
+            ok = False
+        obs.append({"fn": cfn.name, "block": "closure", "kind": "spec", "target": "complete_option_state",
+                    "msg": f"the shadow parse recognises a {kind} option through its primary spelling and ALL its aliases, hidden ones included", "pc": [], "neg": "false" if ok else "true"})
     return ctx, obs, [_enc(cfn, ex, len(ex.stops))], con
 
 
